@@ -30,7 +30,7 @@ EntryMatches(e, a) == HostMatches(e.host, a.host) /\ PortMatches(e.port, a.port)
 (* request forms.  form: how the Host header spells the authority; uri: the request-target's authority *)
 Forms == {"plain", "userinfo", "upper", "trailingDot", "zeroPort"}
 UriKinds == {"absent", "equal", "otherHost", "otherPort", "onlyUri"}
-Malformed == {"extraColon", "badPort", "emptyPort", "nonAscii", "withPath", "emptyHost", "twoHostHeaders"}
+Malformed == {"extraColon", "badPort", "emptyPort", "nonAscii", "withPath", "emptyHost", "twoHostHeaders", "starPort"}
 Requests == [k : {"ok"}, host : Hosts, port : ReqPorts, form : {"plain"}, uri : UriKinds, why : {"none"}]
             \cup [k : {"ok"}, host : Hosts, port : ReqPorts, form : Forms \ {"plain"}, uri : {"absent"}, why : {"none"}]
             \cup [k : {"bad"}, why : Malformed, uri : {"absent", "valid"}, host : {<<"a">>}, port : {"default"}, form : {"plain"}]
@@ -51,7 +51,13 @@ Determined(r) ==
 (* is accepted).  Lexically odd spellings may additionally be denied.                                                  *)
 Verdicts(l, r) ==
   LET a == Determined(r) IN
-  IF a = NoAuthority THEN {"400"}
+  \* a request whose port is the wildcard `*` names no port at all: it may only ever be admitted by an entry that admits every port
+  IF r.k = "bad" /\ r.why = "starPort" /\ r.uri = "absent"
+    THEN (IF \E e \in l : HostMatches(e.host, r.host) /\ e.port = "any" THEN {"pass", "403", "400"} ELSE {"403", "400"})
+  ELSE IF a = NoAuthority THEN {"400"}
+  \* `h:*` next to a valid request-target authority: the two may be found to disagree (400), or the target decides
+  ELSE IF r.k = "bad" /\ r.why = "starPort"
+    THEN {"400", "403"} \cup (IF \E e \in l : EntryMatches(e, a) THEN {"pass"} ELSE {})
   ELSE LET hm == {e \in l : HostMatches(e.host, a.host)}
            full == {e \in hm : PortMatches(e.port, a.port)}
            pats == {e.host : e \in hm}
@@ -68,7 +74,9 @@ Next == Eval
 
 (* meta-properties of the matcher itself *)
 Meta_Soundness == \A r \in Requests : "pass" \in Verdicts(l, r) =>
-                     Determined(r) # NoAuthority /\ \E e \in l : EntryMatches(e, Determined(r))
+                     IF r.k = "bad" /\ r.why = "starPort" /\ r.uri = "absent"
+                       THEN \E e \in l : HostMatches(e.host, r.host) /\ e.port = "any"
+                       ELSE Determined(r) # NoAuthority /\ \E e \in l : EntryMatches(e, Determined(r))
 Meta_SingletonCompleteness ==
   Cardinality(l) = 1 => \A r \in Requests : (r.k = "ok" /\ r.form = "plain" /\ r.uri \in {"absent", "equal", "onlyUri"}
                                                /\ \E e \in l : EntryMatches(e, [host |-> r.host, port |-> r.port]))
